@@ -788,8 +788,19 @@ func (c *Ctx) parseFactsOf(t *tables, m *types.Func, node string, entries map[*t
 				}
 			}
 		case *ast.CallExpr:
-			if g, ok := calleeFunc(info, x); ok && g.Pkg() == c.Pkg("parser") && (g.Name() == "NextToken" || g.Name() == "ExpectToken") {
-				advanced = true
+			if g, ok := calleeFunc(info, x); ok && g.Pkg() == c.Pkg("parser") {
+				// any function that (transitively) moves the token window, by role rather than by name
+				switch c.parserRoles()[g] {
+				case "advance", "expect", "semi", "subparse", "listhelper", "voidhelper":
+					advanced = true
+				}
+			} else if sel, ok := ast.Unparen(x.Fun).(*ast.SelectorExpr); ok {
+				// a call through one of the parser's interceptable function fields parses a whole construct
+				if fv, ok := info.ObjectOf(sel.Sel).(*types.Var); ok && fv.IsField() {
+					if _, isSig := fv.Type().Underlying().(*types.Signature); isSig {
+						advanced = true
+					}
+				}
 			}
 		}
 		return true
